@@ -4,8 +4,10 @@ id=$1; shift
 props="$@"; [ -z "$props" ] && props=${id%%-*}
 cd /repo
 if ! git diff --quiet; then echo "/repo has uncommitted changes; refusing"; exit 2; fi
+ev=$(mktemp -d /tmp/ev_XXXX); cp -a /verif/evidence/. $ev/
 git apply /verif/seeded/$id/patch.diff || { echo "$id: patch does not apply"; exit 2; }
 for q in $props; do
   (cd /verif && ./check $q 2>&1 | grep -E "VIOLATION|govc: prop" | sed 's/replay=.*replays.//' | head -6)
 done
 git checkout -- .
+cp -a $ev/. /verif/evidence/; rm -rf $ev
